@@ -10,6 +10,7 @@ import M4riProofs.GenTieMem
 import M4riProofs.GenTieAlg
 import M4riProofs.GenTieTab
 import M4riProofs.GenTieDuff
+import M4riProofs.GenTieTriFinal
 namespace M4ri.Props.C13
 open M4ri M4ri.Mzd
 
@@ -169,3 +170,15 @@ example : exM.WF ∧ (∀ k, k < min (#[1, 1] : Array Nat).size exM.nrows → (#
 #check @M4ri.GenTieDuff.mzdReadBitsInt_eq
 
 end M4ri.Props.C13
+
+/-! ### COLUMN SWAP ON THE C TEXT (GenTieColSwap.lean, GenTieTri.lean, GenTieTriFinal.lean): `mzd_col_swap_in_rows` — the same-word path with its 4-fold
+    unrolled loop and rest loop, both orientations of the two-word path, the pointer walking down the rows by `rowstride` — `mzd_col_swap`, and
+    `mzd_apply_p_right_trans_tri` (row blocks of L1-cache size over the generated column swap) are generated by vlib/ctrans.py on every check and
+    equal the model as whole memories: LAPACK swap semantics of the column operations for the translated code itself; the row-blocked double loop is
+    proved equal to the single unblocked pass (`blocked_eq`). -/
+#check @M4ri.GenTieColSwap.mzdColSwapInRows_eq
+#check @M4ri.GenTieColSwap.mzdColSwap_eq
+#check @M4ri.GenTieColSwap.colSwapTie
+#check @M4ri.GenTieTri.blocked_eq
+#check @M4ri.GenTieTriFinal.mzdApplyPRightTransTri_eq
+#check @M4ri.GenTieTriFinal.mzdApplyPRightTransTri_liftTri
